@@ -1,6 +1,6 @@
 (** * One output cell of a source map evaluated in binary32:  out = Sum_j data[idx_j] * weight_j.
 
-    The C++ loops ([KickMap::apply], [SourceMap::apply] used by FokkerPlanckMap) accumulate at most
+    The C++ loops ([KickMap::apply], [FokkerPlanckMap::apply], [SourceMap::apply]) accumulate at most
     [k] products in a float, left to right, starting from 0; the compiler may contract
     [value += a*b] into a fused multiply-add and may vectorise/re-associate.  [psum_opt ts v] covers
     all of these (Proofs/RoundingP.v: [psum1] - any order, any tree shape, every rounding optional).
